@@ -158,6 +158,9 @@ def gen_ast(rng, embedded=False):
             rr = rng.choice(['sp', 'a'])
             f = rng.random()
             ops = [['[', R(rr), ']']] if f < 0.3 else [['[', R(rr), '+' if f < 0.7 else '-', num, ']']]
+            if 0.45 < f < 0.7:
+                # an offset of several terms (blanks may stand between any two of them)
+                ops = [['[', R(rr), '+', num] + rng.choice([['+', '1'], ['*', '2'], ['+', '(', '1', '|', '2', ')'], ['-', '0', '+', '1']]) + [']']]
         elif mn == 'sel':
             ops = [[rng.choice(sorted(c10.ENUM))]]
         elif mn == 'mv2':
@@ -341,7 +344,7 @@ class C18(core.Check):
     chunk = 900
     required_buckets = {**{'alone:' + k: 3 for k in REWRITES}, 'all-together': 3, 'tab-after-mnemonic': 3,
                         'upper-register-in-brackets': 3, 'upper-register-indexed': 3, 'label-contains-mnemonic': 3,
-                        'joined>=2': 3, 'joined>=3': 3, 'label-in-front-of-local-reference': 3, 'label-in-front-of-align': 3, 'label-in-front-of-embedded-string': 3, 'two-double-quote-literals-on-one-line': 3, 'comment-behind-a-backslash-quote-or-semicolon-literal': 3, 'label-in-front-of-fill': 3, 'corpus-example': 3, 'preprocessor-lines': 3, 'tab-after-directive-keyword': 3, 'quote-in-comment-after-quoted-statement': 3,
+                        'joined>=2': 3, 'joined>=3': 3, 'label-in-front-of-local-reference': 3, 'label-in-front-of-align': 3, 'blanks-inside-an-offset-of-several-terms': 3, 'label-in-front-of-embedded-string': 3, 'two-double-quote-literals-on-one-line': 3, 'comment-behind-a-backslash-quote-or-semicolon-literal': 3, 'label-in-front-of-fill': 3, 'corpus-example': 3, 'preprocessor-lines': 3, 'tab-after-directive-keyword': 3, 'quote-in-comment-after-quoted-statement': 3,
                         'include-line': 3, 'include-line:trailing-comments': 3,
                         'symbol-use-between-two-quoted-characters-on-one-line': 3,
                         'comment-with-a-character-some-tools-take-for-a-line-end': 3}
@@ -453,6 +456,8 @@ class C18(core.Check):
                     t.add('label-in-front-of-local-reference')
                 if 'label-placement' in ks and re.search(r'^\s*\w+:[ \t]+\.align\b', src, re.M):
                     t.add('label-in-front-of-align')
+                if 'gap-inside-brackets' in ks and re.search(r'\[\s*\w+\s*\+\s*\d+[ \t]+[-+*][ \t]*', src):
+                    t.add('blanks-inside-an-offset-of-several-terms')
                 if 'label-placement' in ks and re.search(r'^\s*\w+:[ \t]+"', src, re.M):
                     t.add('label-in-front-of-embedded-string')
                 if 'label-placement' in ks and re.search(r'^\s*\w+:[ \t]+\.(fill|zero)\b', src, re.M):
